@@ -1106,23 +1106,136 @@ func c14AcceptableTable(tb *c14Tables, f *ssa.Function) (rows []c14AccRow, ok bo
 }
 
 // ---------------------------------------------------------------------------
-// results held in a variable
+// results held in a variable, or merged by φ-nodes
 
-// c14Cell describes a result variable: the stores that assign a non-nil value
-// (failing) and the ones that assign nil (clearing).
+// c14Cell describes where the error result of a return is decided: the points at
+// which a non-nil value is assigned (failing: whole stores, or — for a stored /
+// returned φ — the CFG edges through which a non-nil value enters the φ) and the
+// ones that assign nil (clearing).
 type c14Cell struct {
 	al                *ssa.Alloc
-	failing, clearing []*ssa.Store
+	failing, clearing []ssa.Instruction
+	failE, clearE     []core.Edge
+}
+
+// isFail matches the failing instructions; cut removes the failing edges.
+func (c *c14Cell) isFail(in ssa.Instruction) bool {
+	for _, st := range c.failing {
+		if in == st {
+			return true
+		}
+	}
+	return false
+}
+
+// afterFail lists the program points just after a failure was decided.
+func (c *c14Cell) afterFail() []core.At {
+	out := afterAll(c.failing)
+	for _, e := range c.failE {
+		out = append(out, core.Head(e.To))
+	}
+	return out
+}
+
+// failPoints / clearPoints: instructions whose execution means (CFG-wise) that the
+// failure / the reset can happen next: the instruction itself, or the terminator of
+// the block an edge leaves (once it is reached every successor edge can be taken).
+func (c *c14Cell) failPoints() func(ssa.Instruction) bool {
+	ins := append([]ssa.Instruction{}, c.failing...)
+	for _, e := range c.failE {
+		ins = append(ins, gxLast(e.From))
+	}
+	return core.Is(ins...)
+}
+
+func (c *c14Cell) clearPoints() func(ssa.Instruction) bool {
+	ins := append([]ssa.Instruction{}, c.clearing...)
+	for _, e := range c.clearE {
+		ins = append(ins, gxLast(e.From))
+	}
+	return core.Is(ins...)
+}
+
+// classify records the assignment of val at instruction at (a store into the result
+// variable, or the return itself). A φ whose block is passed at most once per call and
+// from which every path goes on to `at` is decided edge by edge: the value that enters
+// through an edge is the one assigned (what `res, err = helper()` becomes once the
+// helper with several returns is inlined). Anything else non-nil counts as failing.
+func (c *c14Cell) classify(val ssa.Value, at ssa.Instruction) {
+	if core.IsNil(val) {
+		c.clearing = append(c.clearing, at)
+		return
+	}
+	if ph, ok := val.(*ssa.Phi); ok && c.phiEdges(ph, at, 0) {
+		return
+	}
+	c.failing = append(c.failing, at)
+}
+
+func (c *c14Cell) phiEdges(ph *ssa.Phi, at ssa.Instruction, depth int) bool {
+	b := ph.Block()
+	if depth > 3 || len(b.Preds) != len(ph.Edges) {
+		return false
+	}
+	// the block is not on a cycle, and `at` is executed after it on every path to an exit
+	for _, s := range b.Succs {
+		if _, again := core.Reach(core.Q{From: []core.At{core.Head(s)}, Target: core.Is(gxLast(b))}); again {
+			return false
+		}
+	}
+	if at.Block() != b {
+		if w := core.MustPass(core.Head(b), core.Is(at), core.IsExit); w != nil {
+			return false
+		}
+	}
+	var failE, clearE []core.Edge
+	for i, e := range ph.Edges {
+		edge := core.Edge{From: b.Preds[i], To: b}
+		for j, pr := range b.Preds {
+			if j != i && pr == b.Preds[i] {
+				return false // two edges from one block: not told apart by core.Edge
+			}
+		}
+		switch {
+		case core.IsNil(e):
+			clearE = append(clearE, edge)
+		default:
+			if inner, isPhi := e.(*ssa.Phi); isPhi {
+				// a φ merged one block earlier, from which this edge is the only way on
+				if inner.Block() == edge.From && len(edge.From.Succs) == 1 {
+					sub := &c14Cell{}
+					if sub.phiEdges(inner, gxLast(edge.From), depth+1) {
+						failE = append(failE, sub.failE...)
+						clearE = append(clearE, sub.clearE...)
+						continue
+					}
+				}
+			}
+			failE = append(failE, edge)
+		}
+	}
+	c.failE = append(c.failE, failE...)
+	c.clearE = append(c.clearE, clearE...)
+	return true
 }
 
 // c14ErrCell: result i of ret is read from a local result variable that is assigned
 // at several places (so that core.Result cannot name one value) and that no closure
-// captures; nil otherwise. Copies of the variable onto itself are ignored.
+// captures, or is a φ merging nil and non-nil values; nil otherwise. Copies of the
+// variable onto itself are ignored.
 func c14ErrCell(ret *ssa.Return, i int) *c14Cell {
 	if i >= len(ret.Results) {
 		return nil
 	}
-	u, ok := core.Result(ret, i).(*ssa.UnOp)
+	res := core.Result(ret, i)
+	if ph, isPhi := res.(*ssa.Phi); isPhi {
+		cell := &c14Cell{}
+		if cell.phiEdges(ph, ret, 0) && len(cell.clearE) > 0 {
+			return cell
+		}
+		return nil
+	}
+	u, ok := res.(*ssa.UnOp)
 	if !ok || u.Op != token.MUL {
 		return nil
 	}
@@ -1145,11 +1258,7 @@ func c14ErrCell(ret *ssa.Return, i int) *c14Cell {
 			if l, isLoad := x.Val.(*ssa.UnOp); isLoad && l.Op == token.MUL && l.X == ssa.Value(al) {
 				continue
 			}
-			if core.IsNil(x.Val) {
-				cell.clearing = append(cell.clearing, x)
-			} else {
-				cell.failing = append(cell.failing, x)
-			}
+			cell.classify(x.Val, x)
 		default:
 			return nil // captured by a closure, or its address passed on: unknown writers
 		}
